@@ -1500,6 +1500,11 @@ match_rule_equal (BusMatchRule *a,
       strcmp (a->path, b->path) != 0)
     return FALSE;
 
+  /* path_namespace keeps its value in the same member */
+  if ((a->flags & BUS_MATCH_PATH_NAMESPACE) &&
+      strcmp (a->path, b->path) != 0)
+    return FALSE;
+
   if ((a->flags & BUS_MATCH_INTERFACE) &&
       strcmp (a->interface, b->interface) != 0)
     return FALSE;
